@@ -43,7 +43,7 @@ def selftest():
 
 
 def REQUIRED_COVER(tier):
-    return {'kind:short', 'kind:long', 'kind:same', 'noncanonical', 'aug', 'aug_e', 'aug:extra-owns-ref', 'pruned:inner', 'pruned:root', 'tree-hash', 'label:1023'}
+    return {'kind:short', 'kind:long', 'kind:same', 'noncanonical', 'aug', 'aug_e', 'aug:extra-owns-ref', 'pruned:inner', 'pruned:root', 'tree-hash', 'label:1023', 'values:equal-subtries'}
 
 
 # ------------------------------------------------------------------ labels
@@ -155,11 +155,12 @@ def shard_trees(rec, width, part, parts, full):
                 continue
             keys = [k for k in range(1 << width) if mask >> k & 1]
             case_tree(rec, width, keys, kinds[mask % 3])
+            case_tree(rec, width, keys, ('const', 'low1', 'low2')[(mask // 3) % 3])      # equal values: equal sub-tries
             if size <= 3:
                 case_tree(rec, width, keys[::-1], kinds[(mask + 1) % 3])
     else:
         for keys in c09.wide_key_sets(width, rec.seed):
-            for kind in kinds:
+            for kind in kinds + ['const', 'low1']:
                 case_tree(rec, width, keys, kind)
     rec.sample({'width': width, 'oracle': 'HashMap.serialize().hash == reference canonical trie hash'})
 
@@ -225,12 +226,24 @@ def _parse_all(rec, rc, width, aug, want_leaves, want_extras, fn, args, tag):
         rec.outcome('parsed')
 
 
-def case_assign(rec, width, keys, aug, assign):
+VALFNS = {'distinct': lambda k: (k * 29 + 3) & 0xff, 'const': lambda k: 0x5a, 'low1': lambda k: 0x10 + (k & 1)}
+
+
+def _vals(keys, valfn):
+    if valfn.startswith('two:'):
+        m = int(valfn[4:])
+        return {k: RBITS.uint(0xA0 + (m >> k & 1), 8) for k in keys}
+    return {k: RBITS.uint(VALFNS[valfn](k), 8) for k in keys}
+
+
+def case_assign(rec, width, keys, aug, assign, valfn='distinct'):
     """assign: list of kind names per edge in pre-order ('' = canonical)"""
     keys = [int(k) for k in keys]
     rec.case('assign')
-    args = {'width': width, 'keys': keys, 'aug': aug, 'assign': assign}
-    vals = {k: RBITS.uint((k * 29 + 3) & 0xff, 8) for k in keys}
+    args = {'width': width, 'keys': keys, 'aug': aug, 'assign': assign, 'valfn': valfn}
+    vals = _vals(keys, valfn)
+    if valfn != 'distinct':
+        rec.covered('values:equal-subtries')
     edges = RH.edges(vals, width)
     amap = {e[0]: (assign[i] if i < len(assign) else '') for i, e in enumerate(edges)}
 
@@ -244,8 +257,8 @@ def case_assign(rec, width, keys, aug, assign):
         rec.covered('noncanonical')
     leaves, extras = RH.parse(rc, width, aug_extra_len=8 if aug else None, aug_extra_refs=1 if aug == 'ref' else 0)
     assert {k: v[0] for k, v in leaves.items()} == vals
-    rec.state(('assign', width, tuple(keys), aug, tuple(assign)))
-    rec.nontriv(('assign', width, tuple(keys), aug, tuple(assign)))
+    rec.state(('assign', width, tuple(keys), aug, tuple(assign), valfn))
+    rec.nontriv(('assign', width, tuple(keys), aug, tuple(assign), valfn))
     _parse_all(rec, rc, width, aug, vals, extras, 'case_assign', args, 'valid')
 
 
@@ -279,20 +292,20 @@ def antichains(rc):
             yield v
 
 
-def case_prune(rec, width, keys, aug, index, _all=False):
+def case_prune(rec, width, keys, aug, index, _all=False, valfn='distinct'):
     keys = [int(k) for k in keys]
-    vals = {k: RBITS.uint((k * 29 + 3) & 0xff, 8) for k in keys}
+    vals = _vals(keys, valfn)
     rc = RH.build(vals, width, aug=aug_fns(aug == 'ref') if aug else None)
     for i, pr in enumerate(antichains(rc)):
         if i != index and not _all:
             continue
         rec.case('prune')
-        args = {'width': width, 'keys': keys, 'aug': aug, 'index': i}
+        args = {'width': width, 'keys': keys, 'aug': aug, 'index': i, 'valfn': valfn}
         leaves, extras = RH.parse(pr, width, aug_extra_len=8 if aug else None, aug_extra_refs=1 if aug == 'ref' else 0)
         want = {k: v[0] for k, v in leaves.items()}
         rec.covered('pruned:root' if pr.special else 'pruned:inner')
-        rec.state(('prune', width, tuple(keys), aug, index))
-        rec.nontriv(('prune', width, tuple(keys), aug, index))
+        rec.state(('prune', width, tuple(keys), aug, i, valfn))
+        rec.nontriv(('prune', width, tuple(keys), aug, i, valfn))
         _parse_all(rec, pr, width, aug, want, extras, 'case_prune', args, 'pruned')
         if not _all:
             return
@@ -312,6 +325,14 @@ def shard_valid(rec, width, part, parts, max_keys, full_limit=7):
             for assign in assignments(edges, full_limit=full_limit):
                 case_assign(rec, width, keys, aug, assign)
             case_prune(rec, width, keys, aug, -1, _all=True)
+            # value functions that are not injective (equal sub-tries = one shared cell): canonical labels + every single
+            # non-canonical edge, all prunings; for few keys EVERY assignment of two values to the keys
+            vfs = ['const', 'low1'] + ([f'two:{sum(1 << k for j, k in enumerate(keys) if vm >> j & 1)}' for vm in range(1, (1 << len(keys)) - 1)] if len(keys) <= 4 else [])
+            for valfn in vfs:
+                for assign in assignments(edges, full_limit=0, k=1):
+                    case_assign(rec, width, keys, aug, assign, valfn)
+                if not valfn.startswith('two:'):
+                    case_prune(rec, width, keys, aug, -1, _all=True, valfn=valfn)
         n += 1
     rec.sample({'width': width, 'keys': [0, 1, 6], 'edge_kinds': ['same', '', 'long'], 'aug': True})
 
